@@ -309,6 +309,12 @@ def _plumb_job(a):
 def _real_job(a):
     ck, ps, sch, w, cs, cap = a
     args = real_events()
+    if isinstance(ck, str) and ck.startswith("fault:"):
+        # a failing cloud lookup at event `pos` with exception type `ft`, through the REAL kernel's run()
+        _, pos, ft = ck.split(":")
+        cl = SiteCloud(fail_lat=float(args[3][int(pos)]), fault=int(ft))
+        nex, outcomes, bad, capped = explore_config(real_kernel, args, cl, sch, w, cs, ps, None, expect_raise=True, cap=cap)
+        return dict(ck=ck, ps=ps, sch=sch, w=w, cs=cs, nex=nex, outcomes=len(outcomes), bad=bad[:3], capped=capped, exp="the batch call raises", nparts=math.ceil(5 / ps))
     cl = cloud(ck)
     exp = sequential(real_kernel(), args, cl)
     nex, outcomes, bad, capped = explore_config(real_kernel, args, cl, sch, w, cs, ps, exp, cap=cap)
@@ -371,6 +377,10 @@ def run(ctx):
         for ps in ((2,) if tier == "quick" else (1, 2)):
             for sch, w, cs in [("synchronous", 1, 1), ("threads", 2, 1), ("processes", 2, 1), ("threads", 3, 1), ("processes", 3, 1)]:
                 jobs.append((ck, ps, sch, w, cs, 400 if tier == "quick" else 3000))
+    for pos in range(5):
+        for ft in range(len(FAULT_TYPES)):
+            for sch, w in (("synchronous", 1), ("threads", 2)):
+                jobs.append((f"fault:{pos}:{ft}", 2, sch, w, 1, 100))
     res = par.pmap(_real_job, jobs)
     nr = 0
     for r in res:
@@ -381,7 +391,8 @@ def run(ctx):
         if r["capped"]:
             ctx.cap(f"real kernel {r['ck']} ps={r['ps']} {r['sch']} w={r['w']}: stopped after {r['nex']} executions")
         for choices, o in r["bad"]:
-            ctx.violation("batch_equals_one_at_a_time", {"kind": "real", "cloud": r["ck"], "ps": r["ps"], "sch": r["sch"], "w": r["w"], "cs": r["cs"], "choices": choices}, r["exp"], o)
+            clause = "failure_surfaces_as_error" if str(r["ck"]).startswith("fault:") else "batch_equals_one_at_a_time"
+            ctx.violation(clause, {"kind": "real", "cloud": r["ck"], "ps": r["ps"], "sch": r["sch"], "w": r["w"], "cs": r["cs"], "choices": choices}, r["exp"], o)
     ctx.cov["real_kernel_executions"] = nr
     args = real_events()
     for ck in ("none", "mono", "map"):
@@ -456,6 +467,12 @@ def replay(case):
         return [] if o == exp else [("batch_equals_one_at_a_time", exp, o)]
     if k == "real":
         args = real_events()
+        if str(case["cloud"]).startswith("fault:"):
+            _, pos, ft = case["cloud"].split(":")
+            cl = SiteCloud(fail_lat=float(args[3][int(pos)]), fault=int(ft))
+            ch = schedule.Chooser(case["choices"])
+            o = run_batch(real_kernel(), args, cl, case["sch"], case["w"], case["cs"], case["ps"], ch)
+            return [] if o.startswith("raised") else [("failure_surfaces_as_error", "the batch call raises", o)]
         cl = cloud(case["cloud"])
         exp = sequential(real_kernel(), args, cl)
         ch = schedule.Chooser(case["choices"])
